@@ -84,6 +84,26 @@ def run(ctx):
     r15_batch_validity(ctx)
     r16_pmf_recognition(ctx)
     r17_fallback_rows(ctx)
+    r18_call_style_keys(ctx)
+
+
+def r18_call_style_keys(ctx, rule="C15.R18"):
+    """The whole-batch / row-by-row decision is probed and remembered per method of the wrapped learner (predict may take batches while learn does not)."""
+    ctx.rule(rule, "SafeLearner._safe_call(<key>, <method>, ...): the key under which the call style is remembered names the method that is called (`'learn'` with "
+                   "self.learner.learn ...), and what else reads the memo (batch_order's argument) reads it under the key of the call it describes")
+    cls = ctx.model.cls(SAF, "SafeLearner")
+    n = 0
+    for mname, fn in sorted(cls.methods.items()):
+        for c in [c for c in ast.walk(fn) if isinstance(c, ast.Call) and isinstance(c.func, ast.Attribute) and c.func.attr == "_safe_call" and len(c.args) >= 2]:
+            n += 1
+            key, meth = const_str(c.args[0]), c.args[1]
+            ok = key is not None and isinstance(meth, ast.Attribute) and meth.attr == key and unparse(meth.value) == "self.learner"
+            ctx.ob(rule, SAF, f"SafeLearner.{mname}", c, "the memo key is the name of the learner method being called", ok, detail={"key": key, "method": unparse(meth)})
+    ctx.floor(rule, "_safe_call sites", n, 4)
+    pp = ctx.fn(SAF, "SafeLearner._parse_pred")
+    reads = [s_ for s_ in ast.walk(pp) if isinstance(s_, ast.Subscript) and unparse(s_.value) == "self._method"]
+    for s_ in reads:
+        ctx.ob(rule, SAF, "SafeLearner._parse_pred", s_, "the prediction is parsed with the call style remembered for predict", const_str(s_.slice) == "predict", detail={"key": unparse(s_.slice)})
 
 
 def _is_identity_any(e, actions_name):
@@ -671,6 +691,8 @@ def _body_of(st):
 
 
 CONTROLS = [
+    ("learn remembered under predict's key", SAF, M.replace_expr("SafeLearner.learn", "self._safe_call('learn', self.learner.learn, (context, action, reward, probability), kwargs, has_out=False)",
+        "self._safe_call('predict', self.learner.learn, (context, action, reward, probability), kwargs, has_out=False)"), "C15.R18"),
     ("per-row fallback zips whatever it is given", SAF, M.replace_expr("SafeLearner._method2", "zip(*[a if a is not None else repeat(None, n) for a in args])", "zip(*args)"), "C15.R17"),
     ("PMF candidates bounded above instead of below", SAF, M.replace_expr("SafeLearner.possible_pmf", "i >= 0", "i <= 1"), "C15.R16"),
     ("batch validity measured on the last element", SAF, M.replace_expr("SafeLearner.raise_if_not_valid_out", "len_or_0(out[0])", "len_or_0(out[-1])"), "C15.R15"),
